@@ -148,7 +148,8 @@ reg("C07",
     "and a connectivity-transfer argument); attained when spanning is lost at a massive edge (uv_decomposition); all premises hold for tables with the flags of preEntry (premises_of_preEntry). "
     "Attainment (C07Attain.lean): uv_is_monomial - for every graph with two different external vertices u_trop*v_trop = x_e* prod_(greedy cotree) x and either e* is massive (mass term) or "
     "greedy cotree + e* is the complement of a spanning 2-forest separating two externals (momentum term; forest_conn, split_persist, uv_attained_momentum): v_trop is EXACTLY the largest monomial of F/U. "
-    "Both tropical values are decided on the real code by brute force over all spanning trees / F monomials (exact), "
+    "A supporting definition audit on every sampled graph compares the index sets the theorems are stated with (cotrees; mass terms and 2-forest complements separating two externals) "
+    "with the oracle's enumeration of spanning trees and of F's monomials for generic momenta. Both tropical values are decided on the real code by brute force over all spanning trees / F monomials (exact), "
     "together with the sector formula (mpmath) and the normalisation.",
     "That the mass terms and the 2-forests with separated externals are exactly F's monomials for generic kinematics is the 2-forest formula (C09, cited); graphs with fewer than two different external vertices have no generic kinematics (DESIGN 8.2); powf accuracy measured.",
     "Lean 4 theorems (law-free + real) + differential correspondence on the debug log + brute-force exact oracle",
